@@ -14,15 +14,19 @@ class C04(Prop):
     theorems = ["EaselModel.Props.C04." + t for t in S.C04_THEOREMS]
     claimed = True
     diverge_is_violation = True
-    level_text = ("Theorems for every input: the coordinate schedule of sqascii_ReadWindow tiles 1..L on both strands (context = min(C, previous n) preceding residues, new part contiguous, 1-based; reverse windows tile downwards with at most W new residues) for every sequence of (C,W) requests; "
-                  "the line-geometry tracker guarantees what it checks; for FASTA and every pair of read-block sizes B1,B2 >= 1: nextchar, every header loop, header_fasta and the WHOLE of sqascii_ReadInfo (header + residue-counting loop + end_fasta) return the same status and the same ESL_SQ and leave similar handles (readInfo_block_size_independent; the counting loop is proved equal to a byte fold over the rest of the file that does not mention B: readinfo_loop_is_file_fold). The executable line-by-line model of the ascii reader (FASTA, EMBL/UniProt, GenBank/DDBJ, daemon, hmmpgmd, autodetection; block size B a parameter) is tied to the working tree by an exact differential run over Read / ReadInfo / ReadSequence / windows on both strands / ReadBlock (short and long-target) / FASTA round trip x text and digital mode x B in {1,2,3,7,64,4096,random}, "
-                  "and agreement monitors (records equal across read paths, block sizes and modes; offsets are the true byte positions; windows reassemble the sequence; reverse strand = reverse complement; write+re-read reproduces the records) give the concrete failing input.")
-    level_note = ("Block-size independence is a theorem for the FASTA header parser and for the whole of ReadInfo (FASTA); for Read / ReadSequence (the same loop plus addbuf's copying), ReadWindow and the line-based formats it is established by the differential run and the monitors, as are Read/ReadInfo/ReadSequence agreement, true offsets and layout independence (theorems there: the window schedule, the offset arithmetic, the tracker, seebuf = byte fold, single-step agreement lemmas). "
-                  "FASTA, EMBL/UniProt, GenBank/DDBJ, daemon, hmmpgmd, suffix/first-line autodetection and ReadBlock are inside the model; the same files are also read through a real gzip -dc pipe and through standard input (emulated with freopen in a child) and compared with the model; the alignment-as-sequences branch is not modelled. Known: on a pipe the four offsets come from a failing ftello() (known_findings.d/C04.json), only they are excluded from the comparison there. Known finding: the bytes/residues-per-line tracker accepts a longer last line (reverse windows then fail) - see known_findings.d/C04.json.")
+    level_text = ("Theorems for EVERY byte string and EVERY read-block size B >= 1 (FASTA, text and DNA/RNA/amino digital mode): reading with sqascii_Read from esl_sqfile_Open on returns exactly the records and the final status of the declarative parser specFasta (30 lines of dropWhile/takeWhile/filter over the list of file bytes): name, description, residues, the true byte offsets roff/hoff/doff/eoff and L (read_all_eq_specFasta; corollary read_all_block_size_independent); "
+                  "Read, ReadInfo and ReadSequence agree field by field from every ready handle (read_readInfo_readSequence_agree, with the closed forms readInfo_closed_form / readSequence_closed_form); "
+                  "the forward ReadWindow series of a record, for every request stream (C_k >= 0, W_k >= 1), is exactly the declarative window series specWindows of the residues Read returns - context = min(C, previous window) preceding residues, min(W, left) new ones, 1-based contiguous coordinates, residues R[start..end] - then eslEOD with L = |R|, same name/acc/desc/roff/hoff/doff, cursor where Read leaves it (windows_eq_read; windows_concat_eq_read: the new parts concatenate to Read's residues; windows_coords), on top of the closed form of read_nres for every B (read_nres_closed_form); "
+                  "whole-sequence ReadBlock fills its slots with the next records of the same parser (readBlock_short_eq_read); the reverse-strand window schedule tiles 1..L downwards (rev_windows_tile) and positions with esl_ssi_FindSubseq's arithmetic; WriteFasta's data lines hold exactly the residues. "
+                  "Tie: the executable line-by-line model of the ascii reader (FASTA, EMBL/UniProt, GenBank/DDBJ, daemon, hmmpgmd, autodetection; block size B a parameter) is compared exactly with the ASan/UBSan build over Read / ReadInfo / ReadSequence / windows on both strands / ReadBlock (short and long-target) / FASTA round trip x text and digital mode x B swept over 1..4097 (fixed list, uniform, and the sizes that put a block boundary inside/at the end of the header line, at every '>', between CR and LF, at the end of the file), "
+                  "and agreement monitors (records equal across read paths, block sizes and modes; offsets are the true byte positions, also on CRLF files; windows reassemble the sequence; reverse strand = reverse complement; write+re-read reproduces the records) give the concrete failing input.")
+    level_note = ("Not theorems (exact differential run + monitors only): the line-based formats (EMBL/UniProt, GenBank/DDBJ), daemon/hmmpgmd, reverse-strand windows end to end (the schedule and the offset arithmetic are theorems, the re-positioned read_nres with nskip > 0 is WindowSpec.readNres_spec), long-target ReadBlock, the re-read half of write + re-read (writeFasta_keeps_residues_partial is the residue-level half), ReadWindow on a record whose data holds an illegal byte (the window theorems assume the whole-record read succeeds). "
+                  "The same files are also read through a real gzip -dc pipe and through standard input (emulated with freopen in a child) and compared with the model; the alignment-as-sequences branch is not modelled. Known: on a pipe the four offsets come from a failing ftello() (known_findings.d/C04.json), only they are excluded from the comparison there. Known finding: the bytes/residues-per-line tracker accepts a longer last line (reverse windows then fail) - see known_findings.d/C04.json.")
     assumptions = ["fread returns min(B, remaining) bytes; allocation never fails (eslEMEM paths not modelled)",
                    "the model mirrors esl_sqio_ascii.c by hand; fidelity is checked by the differential run only",
                    "alignment files read as sequences are outside the model (monitor only); a gzip pipe / standard input deliver the bytes of the file (popen/freopen plumbing trusted)",
-                   "after a failed call the handle is not used again (the API leaves its state unspecified)"]
+                   "after a failed call the handle is not used again (the API leaves its state unspecified)",
+                   "theorems about one call start from a ready handle (Ready / HReady: block mode, FASTA maps, cursor on a byte or at end of file) - proved to hold after esl_sqfile_Open and after every successful call"]
     technique = ("Lean 4 proofs about an executable line-by-line model of esl_sqio_ascii.c's FASTA reader core and its specification, "
                  "+ exact differential correspondence of the model with the ASan/UBSan build over generated files x read calls x window geometries x read-block sizes, "
                  "+ property monitors on the implementation's output")
